@@ -25,13 +25,11 @@ def _is_setter(fn):
 
 
 def _check_call(stmt):
-    """`self.__check_xxx(<names>)` as a statement"""
+    """`self.<guard method>(<names>)` as a statement (result unused, nothing assigned)"""
     if not isinstance(stmt, ast.Expr) or not isinstance(stmt.value, ast.Call):
         return False
     f = stmt.value.func
     if not (isinstance(f, ast.Attribute) and isinstance(f.value, ast.Name) and f.value.id == "self"):
-        return False
-    if "check" not in f.attr:
         return False
     return all(isinstance(a, ast.Name) for a in stmt.value.args) and not stmt.value.keywords
 
